@@ -1029,7 +1029,9 @@ def parse_lines(rng, n):
             s_ = sign + run + b"." + rand_digits(rng, 31, 120) + rng.choice([b"", b"e-12", b"E+7"])
         elif k == 3:   # one foreign byte inside a long run
             L = len(run)
-            pos = rng.choice([rng.randrange(0, L + 1), L - 19 * rng.randrange(0, L // 19 + 1), 19 * rng.randrange(0, L // 19 + 1), 0, L])
+            j = rng.randrange(0, L // 19 + 1)
+            # (group boundaries of 19 / 18 / 9 digits counted from either end, with the inserted byte counted or not)
+            pos = rng.choice([rng.randrange(0, L + 1), L - 19 * j, L + 1 - 19 * j, 19 * j, 19 * j - 1, L - 18 * j, L + 1 - 18 * j, 18 * j, L - 9 * j, L + 1 - 9 * j, 0, L])
             pos = max(0, min(L, pos))
             ch = rng.choice([b"+", b"+", b"-", b" ", b"_", b"x", b",", b"."])   # (not `e`: the rest of the run would be a huge exponent)
             part = run[:pos] + ch + run[pos:]
